@@ -155,6 +155,7 @@ func (u *UCfg) Unpack(c *ucfg.Config) error {
 type DInt struct {
 	A int    `config:"a" validate:"simcheck=DInt.a"`
 	B string `config:"b" validate:"simcheck=DInt.b"`
+	C int    `config:"c" validate:"simcheck=DInt.c"` // not assigned by InitDefaults
 }
 
 // InitDefaults sets the defaults.
@@ -238,12 +239,13 @@ const (
 	KMStruct
 	KInline
 	KF32
+	KMSlice
 	kindCount
 )
 
 var kindNames = [...]string{"int", "int8", "uint16", "float64", "string", "bool", "duration", "*int", "*string", "VInt", "VStr",
 	"UStr", "UInt", "UBool", "UFloat", "UAny", "UCfg", "[]int", "[]string", "[]VInt", "[2]int", "map[string]int", "map[string]interface{}",
-	"interface{}", "*Config", "DInt", "Inner", "*Inner", "struct", "*struct", "[]struct", "map[string]struct", "inline-struct", "float32"}
+	"interface{}", "*Config", "DInt", "Inner", "*Inner", "struct", "*struct", "[]struct", "map[string]struct", "inline-struct", "float32", "map[string][]int"}
 
 func (k Kind) String() string { return kindNames[k] }
 
@@ -254,7 +256,7 @@ var (
 
 var leafTypes = map[Kind]reflect.Type{
 	KInt: reflect.TypeOf(int(0)), KInt8: reflect.TypeOf(int8(0)), KUint16: reflect.TypeOf(uint16(0)), KF64: reflect.TypeOf(float64(0)),
-	KStr: reflect.TypeOf(""), KBool: reflect.TypeOf(false), KDur: reflect.TypeOf(time.Duration(0)), KF32: reflect.TypeOf(float32(0)),
+	KStr: reflect.TypeOf(""), KBool: reflect.TypeOf(false), KDur: reflect.TypeOf(time.Duration(0)), KF32: reflect.TypeOf(float32(0)), KMSlice: reflect.TypeOf(map[string][]int(nil)),
 	KPInt: reflect.TypeOf((*int)(nil)), KPStr: reflect.TypeOf((*string)(nil)),
 	KVInt: reflect.TypeOf(VInt(0)), KVStr: reflect.TypeOf(VStr("")),
 	KUStr: reflect.TypeOf(UStr{}), KUInt: reflect.TypeOf(UInt{}), KUBool: reflect.TypeOf(UBool{}), KUFloat: reflect.TypeOf(UFloat{}),
